@@ -276,6 +276,11 @@ def run(tier="quick", seed=0, jobs=16):
     r = solve.check([p1, fi == fj, z3.Not(si), z3.Not(sj), ri != rj], 10)
     rep.ob("KN lemma: two partners (same fg by the fg contract, neither a split-off child by VALID) have the same bg_id, from postcondition P1 of bg_id_numpy", {"unsat": "discharged", "sat": "refuted"}.get(r.status, "unknown"), r.backend, r.seconds, "contracts/groupings.py bg_contract", "lemma")
     rep.functions.add("src/_gettsim/groupings.py:18 bg_id_numpy (by contract)")
+    # aggregation nodes are constant per group BY the C11 kernel contract: its exhaustive run (small and large
+    # sparse ids, unsorted rows) is part of this check as well
+    from props import C11 as c11
+
+    c11.bounded(rep, "quick")
     # IN: the classification above treats group-suffixed INPUT columns as constant within the unit;
     # that is what the real input check guarantees -- for every grouping, not only hh
     import pandas as pd
